@@ -56,7 +56,7 @@ def tricky_name(draw):
     sep = draw(st.sampled_from(["_", "_", ".", "-", ""]))
     name = sep.join(parts)
     if draw(st.integers(0, 9)) == 0:
-        name = draw(st.sampled_from(["_", "-", "x_", "_x", "x.", "x..y", "x__y", "a b"]))
+        name = draw(st.sampled_from(["_", "-", "x_", "_x", "x.", "x..y", "x__y", "a b", ".x", ".x.b", "..x", ".x.data.json"]))
     if draw(st.integers(0, 7)) == 0:
         # characters that are ordinary in a POSIX file name but special somewhere else (other platforms' separator,
         # regular expressions, shells, urls)
